@@ -27,7 +27,8 @@
 //	enf <strict> <policies> <sites> <reqs>
 //	    strict    n (strict_sni_host absent) | t | f
 //	    sites     . | hex,hex,…   one route per site (host matcher, exact name) then a catch-all route
-//	    reqs      R;R;…   R = <tls 0|1>/<sniHex>/<hostHex>
+//	    reqs      R;R;…   R = <tls 0|1|2>/<sniHex>/<hostHex>   (2: r.TLS is nil, the connection in the
+//	              request context reports the TLS state and ServeHTTP fills r.TLS in)
 //	  answer: strict=<0|1> r r …   r = in:<site index> | in:* | 421 | s<status>
 //
 //	ca <present><ca><trusted_ca_certs><pem_files><trusted_leaf><verifiers><mode>     (7 digits)
@@ -66,6 +67,7 @@
 package c19
 
 import (
+	"context"
 	"crypto/ecdsa"
 	"crypto/elliptic"
 	"crypto/rand"
@@ -1062,8 +1064,17 @@ func (p *prop) sniModule(names []string) caddytls.ConnectionMatcher {
 
 type req struct {
 	tls       bool
+	viaConn   bool // r.TLS is nil; the connection in the request context reports the TLS state (ServeHTTP fills r.TLS in)
 	sni, host string
 }
+
+// stateConn is a connection that knows its TLS state, as a listener wrapper's connection may
+type stateConn struct {
+	net.Conn
+	st tls.ConnectionState
+}
+
+func (c stateConn) ConnectionState() tls.ConnectionState { return c.st }
 
 func validSite(s string) bool {
 	if s == "" {
@@ -1115,7 +1126,7 @@ func (p *prop) runEnf(f []string) core.Outcome {
 	var reqs []req
 	for _, rs := range strings.Split(f[4], ";") {
 		parts := strings.Split(rs, "/")
-		if len(parts) != 3 || (parts[0] != "0" && parts[0] != "1") || parts[1] == "" || parts[2] == "" {
+		if len(parts) != 3 || (parts[0] != "0" && parts[0] != "1" && parts[0] != "2") || parts[1] == "" || parts[2] == "" {
 			return bad
 		}
 		sni, e1 := core.UnHex(parts[1])
@@ -1123,7 +1134,7 @@ func (p *prop) runEnf(f []string) core.Outcome {
 		if e1 != nil || e2 != nil || !asciiClean(sni, false) || !asciiClean(host, false) {
 			return bad
 		}
-		reqs = append(reqs, req{parts[0] == "1", sni, host})
+		reqs = append(reqs, req{parts[0] != "0", parts[0] == "2", sni, host})
 	}
 
 	// ---- the real server, provisioned by the real http app
@@ -1186,7 +1197,10 @@ func (p *prop) runEnf(f []string) core.Outcome {
 		r := httptest.NewRequest("GET", "https://placeholder.invalid/", nil)
 		r.Host = rq.host
 		r.TLS = nil
-		if rq.tls {
+		if rq.viaConn {
+			r = r.WithContext(context.WithValue(r.Context(), caddyhttp.ConnCtxKey, net.Conn(stateConn{st: tls.ConnectionState{ServerName: rq.sni}})))
+			tag("req:tls-state-from-conn")
+		} else if rq.tls {
 			r.TLS = &tls.ConnectionState{ServerName: rq.sni}
 		}
 		rec := httptest.NewRecorder()
